@@ -285,6 +285,14 @@ func regPrelude(pkg string) {
 		if !s.schedPoint(th, waitSpec{kind: 5}) {
 			return nil, false
 		}
+		if s.crashPending != nil {
+			v := s.crashPending
+			s.crashPending = nil
+			s.threads = s.threads[:1] // the dead threads are gone
+			s.cur = 0
+			s.startPanic(th, v)
+			return nil, false
+		}
 		return nil, true
 	})
 	if pkg == "github.com/akrylysov/pogreb/fs" {
